@@ -39,7 +39,7 @@ theorem step_inputs_from_snapshot (nested : Nested) (sem : Sem) (gi : Nat) (g : 
            | .none => ns
          match out.pause with
          | some p =>
-           .pause p (log ++ [startEv] ++ out.log ++
+           .pause p s (log ++ [startEv] ++ out.log ++
              [.ev { kind := "NodeError", span := sp, parent := some runSpan, name := nd.name }])
          | .none =>
            match out.res with
@@ -65,7 +65,7 @@ theorem step_inputs_from_snapshot_async (nested : Nested) (sem : Sem) (gi : Nat)
        | .none => .ok ns2 log
        | some r =>
          match r.out.pause, r.out.res with
-         | some p, _ => .pause p log
+         | some p, _ => .pause p ns2 log
          | .none, .error e => .fail e ns2 log
          | .none, .ok _ => .ok ns2 log)) ∧
     (∀ nd, collectInputs g s nd nd.inputs = .none →
@@ -127,8 +127,9 @@ theorem stepAsync_schedule_indep (nested : Nested) (sem : Sem) (gi : Nat) (g : G
     (∃ e a la b lb, stepAsync nested sem gi g runSpan k order₁ s rs = .fail e a la ∧
         stepAsync nested sem gi g runSpan k order₂ s rs = .fail e b lb ∧
         GState.equiv a b ∧ la.Perm lb) ∨
-    (∃ p la lb, stepAsync nested sem gi g runSpan k order₁ s rs = .pause p la ∧
-        stepAsync nested sem gi g runSpan k order₂ s rs = .pause p lb ∧ la.Perm lb) :=
+    (∃ p a la b lb, stepAsync nested sem gi g runSpan k order₁ s rs = .pause p a la ∧
+        stepAsync nested sem gi g runSpan k order₂ s rs = .pause p b lb ∧
+        GState.equiv a b ∧ la.Perm lb) :=
   (stepAsync_congr nested sem gi g runSpan k order₁ order₂ (GState.equiv.refl s) rs hnd).cases
 
 /-- non-vacuity: names are distinct; with two completion orders the decisions dicts come out in
@@ -172,7 +173,7 @@ theorem stepSync_eq_stepAsync_partial (nested : Nested) (sem : Sem) (gi : Nat) (
   have h := (stepAsync_congr nested sem gi g runSpan k (List.range rs.length) order
     (GState.equiv.refl s) rs hnd).cases
   rw [hid] at h
-  rcases h with ⟨a, la, b, lb, h1, h2, h3, h4⟩ | ⟨e, a, la, b, lb, h1, _⟩ | ⟨p, la, lb, h1, _⟩
+  rcases h with ⟨a, la, b, lb, h1, h2, h3, h4⟩ | ⟨e, a, la, b, lb, h1, _⟩ | ⟨p, a, la, b, lb, h1, _⟩
   · cases h1
     exact ⟨b, lb, h2, h3, h4⟩
   · cases h1
@@ -330,7 +331,9 @@ theorem run_sync_eq_async … : for interrupt-free programs with unique node nam
     have the same status, values, error, raised.
 FALSE for `values` when the run fails and `cfg.errMode = .cont`: the values are filtered from the
 partial state, and async's partial state holds the outputs of the successful siblings that sync
-never ran (`example` below: sync `[]`, async `[y ↦ …]`).  Everything else is proved:
+never ran (`example` below: sync `[]`, async `[y ↦ …]`) — and, for the same reason, when the run PAUSES at
+a nested-graph node of an interrupt-free graph (async reports the step's successful siblings with the
+pause, the sync step its snapshot; `C02Ex.progPause` below).  Everything else is proved:
 `run_sync_eq_async_partial` (one graph, nested-graph nodes allowed, hypothesis `Nested.Agree`:
 `run` results agree on status / values / error / raised AND pause — `execGraphNode` reads
 `r.pause` —, `map` results agree on `raised` and, when nothing was raised, item by item on
@@ -341,7 +344,11 @@ the real callbacks `nestedAt sem .sync` / `nestedAt sem (.async order)` do satis
 /-- (8) Whole runs of an interrupt-free graph with unique node names, nested-graph nodes and
 mapped nested-graph nodes allowed, for nested callbacks that agree up to logs: the sync runner
 and the async runner (any completion orders) return the same status, error, raised flag and
-pause — and the same values unless the run failed in `continue` mode. -/
+pause — and the same values unless the run failed in `continue` mode or paused (a pause re-raised
+by a nested-graph node: the async step reports the outputs of the step's successful siblings with
+it, exactly as at a failure; the sync step reports its snapshot).  A graph without nested-graph
+nodes, or a whole interrupt-free program, never pauses: `run_sync_eq_async_flat`,
+`run_sync_eq_async_prog` keep the full values clause. -/
 theorem run_sync_eq_async_partial (nested nested' : Nested) (hag : Nested.Agree nested nested')
     (sem : Sem) (order : Nat → List Nat)
     (gi : Nat) (g : GraphD) (values : AL Val) (cfg : RunCfg) (span : Span) (parent : Option Span)
@@ -349,7 +356,7 @@ theorem run_sync_eq_async_partial (nested nested' : Nested) (hag : Nested.Agree 
     let a := runGraph nested sem .sync gi g values cfg span parent
     let b := runGraph nested' sem (.async order) gi g values cfg span parent
     a.status = b.status ∧ a.error = b.error ∧ a.raised = b.raised ∧ a.pause = b.pause ∧
-      ((a.status ≠ .failed ∨ cfg.errMode = .raise) → a.values = b.values) :=
+      ((a.status ≠ .failed ∨ cfg.errMode = .raise) → a.status ≠ .paused → a.values = b.values) :=
   runGraph_agree nested nested' hag sem order gi g values cfg span parent hni hnd
 
 /-- the hypothesis `Nested.Agree`, spelled out -/
@@ -370,8 +377,11 @@ theorem run_sync_eq_async_flat (nested nested' : Nested) (sem : Sem) (order : Na
     let a := runGraph nested sem .sync gi g values cfg span parent
     let b := runGraph nested' sem (.async order) gi g values cfg span parent
     a.status = b.status ∧ a.error = b.error ∧ a.raised = b.raised ∧ a.pause = b.pause ∧
-      ((a.status ≠ .failed ∨ cfg.errMode = .raise) → a.values = b.values) :=
-  runGraph_flat nested nested' sem order gi g values cfg span parent hflat hni hnd
+      ((a.status ≠ .failed ∨ cfg.errMode = .raise) → a.values = b.values) := by
+  obtain ⟨h1, h2, h3, h4, h5⟩ := runGraph_flat nested nested' sem order gi g values cfg span parent hflat hni hnd
+  exact ⟨h1, h2, h3, h4, fun hc => h5 hc
+    (runGraph_not_paused nested sem .sync gi g values cfg span parent hni
+      (fun nd hnd hk => absurd hk (hflat nd hnd)))⟩
 
 /-- (8, whole programs) `runner.run` of the sync runner and of the async runner, for a program all
 of whose graphs are interrupt-free with unique node names (`Program.Regular`): nested graphs and
@@ -382,8 +392,9 @@ theorem run_sync_eq_async_prog (sem : Sem) (order : Nat → List Nat) (prog : Pr
     let a := run sem .sync prog root values cfg
     let b := run sem (.async order) prog root values cfg
     a.status = b.status ∧ a.error = b.error ∧ a.raised = b.raised ∧ a.pause = b.pause ∧
-      ((a.status ≠ .failed ∨ cfg.errMode = .raise) → a.values = b.values) :=
-  run_agree sem order prog hprog root values cfg
+      ((a.status ≠ .failed ∨ cfg.errMode = .raise) → a.values = b.values) := by
+  obtain ⟨h1, h2, h3, h4, h5⟩ := run_agree sem order prog hprog root values cfg
+  exact ⟨h1, h2, h3, h4, fun hc => h5 hc (run_not_paused sem .sync prog hprog root values cfg)⟩
 
 /-- (8, `runner.map`) the top-level `map` of the two runners raises the same error, and when
 nothing is raised returns item results that agree on status, error and (unless failed) values. -/
@@ -424,6 +435,29 @@ example :
     (run bodySem .sync C02Ex.progBA 0 [("x", .int 7)] { errMode := .cont }).values = [] ∧
     (run bodySem (.async fun _ => []) C02Ex.progBA 0 [("x", .int 7)] { errMode := .cont }).values =
       [("y", Val.mkTup [.str "a", .int 7])] := by
+  decide
+
+/-- why (8) excludes paused runs from the values clause: `sub` (a nested graph whose inner interrupt
+pauses) and `a` are ready in one step of an interrupt-free outer graph. Both model runners pause with the
+same `PauseInfo`; the async step reports its `ns2` — `a`'s output `y` is in the values — while the sync
+step (a branch that exists for totality only: the real sync runner rejects interrupts) reports its snapshot. -/
+def C02Ex.progPause : Program := elabProgram [
+  { name := "inner", nodes := [
+     { name := "ask", kind := .interrupt, params := [("x", .none)], dataOuts := ["ans"], body := .handler .none }] },
+  { name := "outer", nodes := [
+     { name := "sub", kind := .graph, inner := 0 },
+     { name := "a", kind := .fn, params := [("x", .none)], dataOuts := ["y"], body := .tag "a" }] }]
+
+example : (∀ nd ∈ (C02Ex.progPause.getD 1 default).nodes, nd.kind ≠ .interrupt) ∧
+    ((C02Ex.progPause.getD 1 default).nodes.map (·.name)).Nodup := by decide
+example :
+    (run bodySem .sync C02Ex.progPause 1 [("x", .int 1)] {}).status = .paused ∧
+    (run bodySem (.async fun _ => []) C02Ex.progPause 1 [("x", .int 1)] {}).status = .paused ∧
+    (run bodySem .sync C02Ex.progPause 1 [("x", .int 1)] {}).pause.map (·.nodeName) = some "sub/ask" ∧
+    (run bodySem (.async fun _ => []) C02Ex.progPause 1 [("x", .int 1)] {}).pause.map (·.nodeName) = some "sub/ask" ∧
+    (run bodySem .sync C02Ex.progPause 1 [("x", .int 1)] {}).values = [] ∧
+    (run bodySem (.async fun _ => []) C02Ex.progPause 1 [("x", .int 1)] {}).values =
+      [("y", Val.mkTup [.str "a", .int 1])] := by
   decide
 
 /-- (9) The ready SET does not depend on the order in which the graph lists its nodes (unique
